@@ -76,8 +76,8 @@ theorem gridGet_some (m : PMat) (hw : m.WF) (i j : Nat) (hi : i < m.nrows) (hj :
 
 theorem getMatrix_spec (values : List (String × Rat)) (m : PMat) (hw : m.WF) (hc : Covers values m.elems) :
     ∃ A, getMatrix values m = .ok A ∧ A.length = m.nrows ∧
-      ∀ i (hi : i < m.nrows) (hA : i < A.length), A[i].length = m.ncols ∧
-        ∀ j (hj : j < m.ncols) (hAj : j < A[i].length),
+      ∀ i (_ : i < m.nrows) (hA : i < A.length), A[i].length = m.ncols ∧
+        ∀ j (_ : j < m.ncols) (hAj : j < A[i].length),
           ∃ e, gridGet m.grid i j = some e ∧ dictGet values e.name = some A[i][j] := by
   have hrow : ∀ i ∈ List.range m.nrows, ∃ r, mapE (fun j =>
       match gridGet m.grid i j with
